@@ -16,7 +16,7 @@ import (
 func init() {
 	reg(&core.RuleInfo{Name: "LOCK-GUARD", Props: []string{"C15", "C03", "C05", "C07", "C13", "C18", "C19"}, Engine: "LOCK", Floor: 20, Confirmed: 60,
 		Doc: "guarded fields are only accessed with the owner's mutex held; writes exclusively", Run: runLockGuard})
-	reg(&core.RuleInfo{Name: "LOCK-ESCAPE", Props: []string{"C15"}, Engine: "LOCK", Floor: 1, Confirmed: 8,
+	reg(&core.RuleInfo{Name: "LOCK-ESCAPE", Props: allProps, Engine: "LOCK", Floor: 1, Confirmed: 8,
 		Doc: "no guarded container leaves its critical section", Run: runLockEscape})
 	reg(&core.RuleInfo{Name: "EVT-IMMUT", Props: []string{"C15"}, Engine: "PROV", Floor: 2, Confirmed: 4,
 		Doc: "shared *Event values are never written after publication", Run: runEvtImmut})
@@ -43,7 +43,8 @@ var guardTable = map[string][]string{
 // interfaces and pointers — except pointers to types that synchronise themselves (a struct
 // with its own mutex, sync.* and sync/atomic types) — and any other field that is assigned
 // outside the function that allocates the struct. This is the strictest reading (every such
-// access holds the lock); code that satisfies it is race-free on those fields, code that
+// access holds the lock; a channel field counts only when it is re-assigned after construction,
+// because channel operations synchronise themselves); code that satisfies it is race-free on those fields, code that
 // does not is reported for confirmation.
 var autoGuard = map[*core.Program]map[string][]string{}
 
@@ -118,7 +119,12 @@ func autoGuardTable(c *core.Ctx) map[string][]string {
 				}
 				fname := an.FieldNameHook(s, i)
 				switch ft.Underlying().(type) {
-				case *types.Map, *types.Slice, *types.Chan, *types.Interface, *types.Pointer:
+				case *types.Chan:
+					// a channel synchronises its own operations: only re-pointing the field needs the lock
+					if assigned[n+"."+fname] {
+						fields = append(fields, fname)
+					}
+				case *types.Map, *types.Slice, *types.Interface, *types.Pointer:
 					fields = append(fields, fname)
 				default:
 					if assigned[n+"."+fname] {
@@ -468,6 +474,11 @@ func guardedAccesses(c *core.Ctx, fn *ssa.Function) []fieldAccess {
 		// the field itself is assigned only while the object is built, and this use only asks whether
 		// it was set (`v.subs == nil`): nothing of the guarded structure is read
 		if !acc.write && an.FieldWriteOnceHook(fa.X.Type(), fa.Field) && onlyNilTested(fa) {
+			return
+		}
+		// … or the pointer is only used to call methods that never look at their receiver (a key
+		// function hung on the index type, `c.evsIndex.keysFromEvent(event)`): nothing guarded is read
+		if !acc.write && an.FieldWriteOnceHook(fa.X.Type(), fa.Field) && onlyStatelessCalls(c, fa) {
 			return
 		}
 		out = append(out, acc)
@@ -886,8 +897,43 @@ func runLockEscape(c *core.Ctx) {
 						}
 					}
 				}
+				// moved out, not shared: before the section ends the field is re-pointed to memory
+				// that has nothing to do with what is returned (nil, a fresh container, a buffer the
+				// caller handed in) — ownership of the old container passes to the caller as a whole
+				if len(esc) > 0 {
+					bw := propagate(unitOf(fn), []ssa.Value{ld})
+					moved := false
+					an.Instrs(fn, func(in ssa.Instruction) {
+						st, ok := in.(*ssa.Store)
+						if !ok {
+							return
+						}
+						fa2, ok := st.Addr.(*ssa.FieldAddr)
+						if !ok || fa2.Field != a.fa.Field || an.PathOf(fa2.X) != an.PathOf(a.fa.X) {
+							return
+						}
+						if instrReaches(ld, st) && !bw.has(st.Val) {
+							moved = true
+						}
+					})
+					if moved {
+						var rest []string
+						for _, e := range esc {
+							if e != "returned" {
+								rest = append(rest, e)
+							}
+						}
+						esc = rest
+					}
+				}
 				construct := "container:" + a.typ + "." + a.field
-				c.Check(len(esc) == 0, nil, fname(c, fn), construct, P.Pos(ld.Pos()), "the guarded container stays inside its critical section", "the guarded container "+a.typ+"."+a.field+" is "+strings.Join(esc, ", ")+": callers touch it after the lock is released")
+				lprops := []string{"C15"}
+				for _, sp := range subsystemProps(c, fn) {
+					if sp != "C15" {
+						lprops = append(lprops, sp)
+					}
+				}
+				c.Check(len(esc) == 0, lprops, fname(c, fn), construct, P.Pos(ld.Pos()), "the guarded container stays inside its critical section", "the guarded container "+a.typ+"."+a.field+" is "+strings.Join(esc, ", ")+": callers touch it after the lock is released")
 			}
 		}
 	}
@@ -1435,6 +1481,55 @@ func addrSuffix(v ssa.Value) string {
 }
 
 // onlyNilTested: every use of the field address is a load whose value is only compared with nil.
+// receiverUnused: the module method never refers to its receiver
+func receiverUnused(c *core.Ctx, fn *ssa.Function) bool {
+	if fn == nil || !c.P.InModule(fn) || len(fn.Blocks) == 0 || fn.Signature.Recv() == nil || len(fn.Params) == 0 {
+		return false
+	}
+	refs := fn.Params[0].Referrers()
+	if refs == nil {
+		return true
+	}
+	for _, r := range *refs {
+		if _, dbg := r.(*ssa.DebugRef); !dbg {
+			return false
+		}
+	}
+	return true
+}
+
+// onlyStatelessCalls: every use of the field is a load whose value is only the receiver of calls
+// of methods that never refer to their receiver
+func onlyStatelessCalls(c *core.Ctx, fa *ssa.FieldAddr) bool {
+	if fa.Referrers() == nil || len(*fa.Referrers()) == 0 {
+		return false
+	}
+	for _, r := range *fa.Referrers() {
+		u, ok := r.(*ssa.UnOp)
+		if !ok || u.Op != token.MUL || u.Referrers() == nil || len(*u.Referrers()) == 0 {
+			return false
+		}
+		for _, r2 := range *u.Referrers() {
+			if _, dbg := r2.(*ssa.DebugRef); dbg {
+				continue
+			}
+			call, ok := r2.(*ssa.Call)
+			if !ok || len(call.Call.Args) == 0 || call.Call.Args[0] != ssa.Value(u) {
+				return false
+			}
+			for _, a := range call.Call.Args[1:] {
+				if a == ssa.Value(u) {
+					return false
+				}
+			}
+			if !receiverUnused(c, an.StaticCallee(&call.Call)) {
+				return false
+			}
+		}
+	}
+	return true
+}
+
 func onlyNilTested(fa *ssa.FieldAddr) bool {
 	if fa.Referrers() == nil || len(*fa.Referrers()) == 0 {
 		return false
